@@ -11,3 +11,5 @@ pub mod stream;
 pub mod pers;
 pub mod points;
 pub mod threads;
+pub mod server;
+pub mod crashpoints;
